@@ -7,19 +7,37 @@ type queryCache map[string][]Result
 
 // ChunkCache associates Chunk and query string to lists of items
 type ChunkCache struct {
-	mutex sync.Mutex
-	cache map[*Chunk]*queryCache
+	mutex      sync.Mutex
+	cache      map[*Chunk]*queryCache
+	generation int
 }
 
 // NewChunkCache returns a new ChunkCache
 func NewChunkCache() *ChunkCache {
-	return &ChunkCache{sync.Mutex{}, make(map[*Chunk]*queryCache)}
+	return &ChunkCache{sync.Mutex{}, make(map[*Chunk]*queryCache), 0}
 }
 
 func (cc *ChunkCache) Clear() {
 	cc.mutex.Lock()
 	cc.cache = make(map[*Chunk]*queryCache)
 	cc.mutex.Unlock()
+}
+
+// Invalidate clears the cache and starts a new generation so that searches
+// still running with patterns built before this point can no longer add
+// their results
+func (cc *ChunkCache) Invalidate() {
+	cc.mutex.Lock()
+	cc.cache = make(map[*Chunk]*queryCache)
+	cc.generation++
+	cc.mutex.Unlock()
+}
+
+// Generation returns the current generation of the cache
+func (cc *ChunkCache) Generation() int {
+	cc.mutex.Lock()
+	defer cc.mutex.Unlock()
+	return cc.generation
 }
 
 func (cc *ChunkCache) retire(chunk ...*Chunk) {
@@ -32,12 +50,26 @@ func (cc *ChunkCache) retire(chunk ...*Chunk) {
 
 // Add adds the list to the cache
 func (cc *ChunkCache) Add(chunk *Chunk, key string, list []Result) {
+	cc.add(-1, chunk, key, list)
+}
+
+// AddIfCurrent adds the list to the cache unless the cache has been
+// invalidated since the given generation
+func (cc *ChunkCache) AddIfCurrent(generation int, chunk *Chunk, key string, list []Result) {
+	cc.add(generation, chunk, key, list)
+}
+
+func (cc *ChunkCache) add(generation int, chunk *Chunk, key string, list []Result) {
 	if len(key) == 0 || !chunk.IsFull() || len(list) > queryCacheMax {
 		return
 	}
 
 	cc.mutex.Lock()
 	defer cc.mutex.Unlock()
+
+	if generation >= 0 && generation != cc.generation {
+		return
+	}
 
 	qc, ok := cc.cache[chunk]
 	if !ok {
